@@ -9,11 +9,16 @@ import subprocess
 import sys
 import time
 import traceback
+import warnings
+
+warnings.simplefilter('ignore')
 
 VERIF = os.path.dirname(os.path.dirname(os.path.abspath(__file__)))
 REPO = os.environ.get('VP_REPO', '/repo')
 MAXV = int(os.environ.get("VP_MAXV", "8"))
 NPROC = int(os.environ.get('VP_NPROC', '16'))
+# mutant / scratch runs must not rewrite the committed evidence: they write next to the scratch tree
+OUTDIR = os.path.join(REPO, '.vp_out') if os.environ.get('VP_NOEVIDENCE') else VERIF
 
 
 class HarnessError(Exception):
@@ -127,10 +132,10 @@ class Report(object):
                     print('KNOWN-FINDING: property=%s %s [%s]' % (self.prop, ent.get('what', ''), ent.get('id', sig)))
             else:
                 unknown.append(v)
-        os.makedirs(os.path.join(VERIF, 'replays'), exist_ok=True)
+        os.makedirs(os.path.join(OUTDIR, 'replays'), exist_ok=True)
         for v in unknown[:MAXV]:
             h = hashlib.sha1(v.sig.encode()).hexdigest()[:10]
-            path = os.path.join(VERIF, 'replays', '%s-%s.json' % (self.prop, h))
+            path = os.path.join(OUTDIR, 'replays', '%s-%s.json' % (self.prop, h))
             with open(path, 'w') as fh:
                 fh.write(jdump({'property': self.prop, 'signature': v.sig, 'message': v.msg,
                                 'count': self.viol_counts[v.sig], 'case': v.case,
@@ -149,8 +154,8 @@ class Report(object):
         ev = {'property_id': self.prop, 'tier': self.tier, 'seed': self.seed, 'level': self.level,
               'coverage': cov, 'assumptions': self.assumptions,
               'wall_s': round(time.time() - self.t0, 3), 'violations': len(unknown)}
-        os.makedirs(os.path.join(VERIF, 'evidence'), exist_ok=True)
-        path = os.path.join(VERIF, 'evidence', '%s.json' % self.prop)
+        os.makedirs(os.path.join(OUTDIR, 'evidence'), exist_ok=True)
+        path = os.path.join(OUTDIR, 'evidence', '%s.json' % self.prop)
         with open(path, 'w') as fh:
             fh.write(jdump(ev, indent=1))
         validate_evidence(path)
